@@ -360,19 +360,27 @@ CLAIMED = {
         "technique": "Coq proof (no-mutation stream invariant; embedding/frame lemma for creation) + snapshot differential correspondence",
     },
     "C02": {
-        "text": ("13 theorems (Coq, no axioms) over the evaluator model and the path builder: for every real result of every path of the "
+        "text": ("19 theorems (Coq, no axioms) over the evaluator model and the path builder: for every real result of every path of the "
                  "C01 fragment (slices only as the last segment) the parent holds the node under the parentref "
                  "(hash: membership of the pair with an equal key; sequence: the element at the index; set: "
                  "membership) and the ancestry chain walks from the document root, each link a child step, to the "
-                 "node (C02_results_located, C02_parentref, C02_ancestry).  Path text: C02_path_resolves_partial - "
+                 "node (C02_results_located, C02_parentref, C02_ancestry); for documents whose mapping keys are pairwise "
+                 "unequal (every loaded document) in the Doc.child form parent[parentref] = node (C02_parentref_child).  "
+                 "Path text: C02_path_resolves_partial - "
                  "for every location whose keys are safe (computable guard pb_safe = exactly the complement of "
                  "listed finding F26: non-empty, no *, no leading &, no back-slash before a back-slash / "
                  "separator / ( [ ] blank quote, integer keys without a string twin, no leading / in dot "
                  "notation; keys with EVERY escapable character are safe) the text the library builds "
                  "(escape_path_section per key, [n] per index), fed back, parses to one KEY/INDEX segment per "
                  "step and the required query yields exactly the node there, in both notations, also for "
-                 "str() of the reported path; seven _refuted witnesses, one per failing clause.  That every "
-                 "handler's reported path IS that text is tied on every located result, not proved.  Tie: "
+                 "str() of the reported path; seven _refuted witnesses, one per failing clause.  "
+                 "C02_reported_path_is_built_partial: EVERY handler's reported path (key incl. pass-through, index, "
+                 "hash / set slices, all search loops, * and ** with and without a following segment) IS that text "
+                 "for the result's location (read off the ancestry), and the whole NodeCoords is the straight walk's; "
+                 "guards: no [&anchor] segment (F27), no index counted from the end, no integer-looking key spelled "
+                 "differently from str(int) - witnesses of what is reported instead.  Hence "
+                 "C02_every_reported_path_resolves_partial: re-evaluating the reported path of ANY real result, in "
+                 "either notation, yields exactly that result (guards: pb_safe of its location and the two above).  Tie: "
                  "parent identity, parentref, reported path, full ancestry of every result; the judge "
                  "indexes the real parent, walks the real ancestry and re-queries str(path) in both notations; "
                  "F27 ([&anchor] paths matching other nodes)."),
